@@ -356,6 +356,8 @@ class Scenario:
             "quad": ".quad 0x%x" % (0x1122334455000000 + k),
             "selfloop": ".Lx:\nmov eax, %d\njne .Lx" % k,
             "align16": "mov eax, %d\n.align 16\nmov ebx, %d" % (k, k),
+            "func_body": "test eax, eax\nje .Lz\nmov eax, %d\n.Lz:\nret" % k,
+            "func_simple": "mov eax, %d\nret" % k,
         }
         if name.startswith("jmp:"):
             text = "mov eax, %d\njmp %s" % (k, name[4:])
@@ -438,6 +440,11 @@ class Scenario:
             if md["op"] == "scope":
                 self._register_scope(ctx, mi, md)
                 continue
+            if md["op"] == "insert_function":
+                p = self.make_patch(md.get("uid", mi), md["patch"])
+                self.mod_patches[mi] = p
+                self.symbols[md["name"]] = ctx.register_insert_function(md["name"], p)
+                continue
             if located is not None:
                 blk, at, ln = located
             else:
@@ -518,7 +525,12 @@ class Scenario:
 
     # ---- flattening ------------------------------------------------------------
     def section_intervals(self, sect):
-        return sorted(sect.byte_intervals, key=lambda b: b.address)
+        """Intervals in listing order: the original ones by address, then intervals created by the rewrite (their place
+        relative to independent intervals is a layout decision outside the properties)."""
+        orig = set(map(id, self.intervals.values()))
+        old = sorted([b for b in sect.byte_intervals if id(b) in orig], key=lambda b: b.address)
+        new = sorted([b for b in sect.byte_intervals if id(b) not in orig], key=lambda b: b.address)
+        return old + new
 
     def flatten_bytes(self, sect):
         """-> (rope or bytes of the whole section in address order, {interval: base position})"""
